@@ -46,9 +46,11 @@ _rtq = _rt(2) + _rt(3) + ['aTaa', 'aTa1a', 'aTsa', 'aaTa', 'a^Ta', 'aTaRa1', 's~
 _rtx = dict(indep=True, icall_extra=['_dispatch_lane_legacy_set_target_queue'], name_extra='_retarget')
 HARNESSES += [HH(x, **_rtx) for x in _rtq] + [HH(x, tiers=('thorough',), **_rtx) for x in _rt(4) if x not in _rtq]
 HARNESSES += [HH(x, chain=True) for x in ('a1wa1s', 'a1wa1Rs', 'a1w1a1s', 'a1Rwa1s')]
+# (e) the bottom of the hierarchy is the real thread-bound MAIN queue (serviced by the main thread through _dispatch_main_queue_callback_4CF)
+HARNESSES += [HH(x, mainq=True) for x in ops_on((0, 1), 'as', 2)] + [HH(x, mainq=True) for x in nested((0, 1), inner='sw')] + [HH(x, mainq=True, tiers=('thorough',)) for x in ops_on((0, 1), 'asw', 3)]
 ASSUMPTIONS = ['tier H: hierarchies (a) serial->serial->root, (b) concurrent->serial->root, (c) two queues fanning in on one serial queue, (d) the same built by dispatch_set_target_queue on an inactive queue followed by dispatch_activate',
                'histories are sequential; overlap is exercised through nested operations: while an item runs, client thread B submits synchronously to any level (if B must sleep its path ends there); worker choice: oldest pending hand-off',
                'workloops as hierarchy bottom are not covered: on this platform a serial queue targeting a dispatch_workloop crashes in _dispatch_lane_drain (DISPATCH_INVOKE_WORKLOOP_DRAIN dereferences a non-workloop wlh) - see DESIGN, known limitation of the build, not exercised',
-               'depth <= 3, fan-in <= 2', 'LOCK-CHAIN oracle: whenever an item of a queue whose do_targetq is a serial queue of the hierarchy starts, the running thread holds that serial queue\'s drain lock (covers hierarchies built by dispatch_set_target_queue on an active queue)']
-LEVEL_TEXT = 'Tier H on real code: hierarchies serial->serial->root, concurrent->serial->root, two queues fanning in on one serial queue, the same built through dispatch_set_target_queue on an inactive queue + activate, with and without a client-chosen QoS attribute; every sequence of 2 (thorough 3) submissions addressed to any level, plus nested histories in which a second client submits synchronously to any level while an item of any level runs: at most one item of the hierarchy runs at a time, per-queue FIFO. Also: every sequence of 3 operations containing dispatch_async_and_wait on any level (its item parked on a busy lower level is run by that level\'s drainer, which must keep its own lock), and dispatch_set_target_queue on an ACTIVE queue (one retarget in every sequence of <= 3 (4) operations, also issued from inside a running item) judged by the LOCK-CHAIN oracle: an item of a queue whose do_targetq is a serial queue of the hierarchy starts only on a thread that holds that queue\'s drain lock.'
+               'depth <= 3, fan-in <= 2', '(e) a serial queue targeting the real thread-bound main queue: the run-loop poke is a recorded hand-off, the main thread (model thread 1) drains with the real _dispatch_main_queue_callback_4CF', 'LOCK-CHAIN oracle: whenever an item of a queue whose do_targetq is a serial queue of the hierarchy starts, the running thread holds that serial queue\'s drain lock (covers hierarchies built by dispatch_set_target_queue on an active queue)']
+LEVEL_TEXT = 'Tier H on real code: hierarchies serial->serial->root, concurrent->serial->root, two queues fanning in on one serial queue, the same built through dispatch_set_target_queue on an inactive queue + activate, with and without a client-chosen QoS attribute; every sequence of 2 (thorough 3) submissions addressed to any level, plus nested histories in which a second client submits synchronously to any level while an item of any level runs: at most one item of the hierarchy runs at a time, per-queue FIFO. Also: every sequence of 3 operations containing dispatch_async_and_wait on any level (its item parked on a busy lower level is run by that level\'s drainer, which must keep its own lock), and dispatch_set_target_queue on an ACTIVE queue (one retarget in every sequence of <= 3 (4) operations, also issued from inside a running item) judged by the LOCK-CHAIN oracle: an item of a queue whose do_targetq is a serial queue of the hierarchy starts only on a thread that holds that queue\'s drain lock. Histories also on a serial queue targeting the real thread-bound MAIN queue and on the main queue itself: the run-loop poke is a recorded hand-off and the main thread (model thread 1) drains with the real _dispatch_main_queue_callback_4CF / _dispatch_main_queue_drain; synchronous items submitted from another thread are run remotely by the main thread.'
 LEVEL_NOTE = "Depth <= 3, fan-in <= 2, sequential histories with nested client submissions; workloops as hierarchy bottom are not exercised (a serial queue targeting a workloop crashes on this platform's build); retargeting of an ACTIVE queue: histories with one dispatch_set_target_queue on the active top queue (three otherwise unrelated queues)."
